@@ -189,6 +189,7 @@ class Ctx:
                 "exhaustive": False,
                 "notes": self.notes,
                 "parameter_renames": sorted(set(r for pr in facts._loaded.values() for r in pr.param_renames)),
+                "inlined_helpers": sorted(set("%s into %s" % hc for pr in facts._loaded.values() for hc in pr.inlined)),
             },
             "assumptions": assumptions,
             "wall_s": round(time.time() - self.t0, 2),
